@@ -207,6 +207,15 @@ class LazyGen(Iter):
         raise AnalysisError('a lazy generator expression is consumed by code that does not know it (line %s)' % getattr(self.node, 'lineno', '?'))
 
 
+def _rebind_closures(newenv, oldenv):
+    """The frame dictionary was replaced by a copy: closures defined in this frame close over the new one."""
+    if newenv is oldenv:
+        return
+    for k, v in newenv.items():
+        if v is oldenv and k.startswith('__closure@'):
+            newenv[k] = newenv
+
+
 class _YieldSignal(BaseException):
     """A lazily interpreted generator reached a yield: control goes back to whoever asked for the next item."""
     def __init__(self, value, state, node):
@@ -221,6 +230,7 @@ class GenObj(Iter):
         self.node, self.info, self.scope, self.env, self.fname = node, info, scope, env, fname
         self.pc = None            # None: not started; a Yield/YieldFrom node: suspended there; 'done'
         self.pos = 0
+        self.retval = None        # the value of its return statement, once it is done (x = yield from g)
 
     @property
     def items(self):
@@ -234,6 +244,7 @@ class GenObj(Iter):
         memo[id(self)] = g
         g.env = copy.deepcopy(self.env, memo)
         g.pc = self.pc
+        g.retval = copy.deepcopy(self.retval, memo)
         return g
 
     def take(self):
@@ -643,6 +654,8 @@ class Interp:
 
     def st_Assign(self, n, s):
         outs = []
+        if isinstance(n.value, ast.YieldFrom) and self._lazy_active and not any(k.startswith('__yields@') for k in s.env):
+            return self._lazy_yield_from(n, s)
         call = self._as_call(n.value, s)
         if call is None and isinstance(n.value, ast.YieldFrom) and isinstance(n.value.value, ast.Call) and self.generators \
            and any(k.startswith('__yields@') for k in s.env):
@@ -785,7 +798,9 @@ class Interp:
                     self._force_callee = setter
                     res = self.inline(call, s)
                     st = res[0][0]
+                    _old_env = s.env
                     s.env, s.trace, s.assumed, s.flags = st.env, st.trace, st.assumed, st.flags
+                    _rebind_closures(s.env, _old_env)
                 else:
                     self.imprecise.append('setter of %s could not be interpreted (line %s)' % (txt, getattr(node, 'lineno', '?')))
                 self._force_callee = None
@@ -1311,7 +1326,9 @@ class Interp:
         if res is None or len(res) != 1:
             raise AnalysisError('helper call %s is not deterministic' % _text(call))
         st, v = res[0]
+        _old_env = s.env
         s.env, s.trace, s.assumed, s.flags = st.env, st.trace, st.assumed, st.flags
+        _rebind_closures(s.env, _old_env)
         return (v,)
 
     def materialize(self, v, s):
@@ -1386,8 +1403,8 @@ class Interp:
         f = call.func
         fn = self.scope
         node = getattr(fn, 'node', None)
-        if isinstance(f, ast.Name) and f.id == '__forced' and getattr(self, '_force_unbound', None) is not None:
-            info = self._force_unbound
+        if isinstance(f, ast.Name) and f.id.startswith('__forced_') and f.id in self.__dict__.get('_forced_table', {}):
+            info = self._forced_table[f.id]
             return info.node, False, info
         forced = getattr(self, '_force_callee', None)
         if forced is not None:
@@ -1552,8 +1569,9 @@ class Interp:
                 cenv = s.env.get('__closure@%s_%d' % (node.name, node.lineno)) if isinstance(node, ast.FunctionDef) else None
                 if isinstance(cenv, dict) and cenv is not s.env:
                     shadow = set(local)
+                    free = {x.id for x in ast.walk(node) if isinstance(x, ast.Name)}
                     for k, v in cenv.items():
-                        if k not in shadow and not k.startswith('__'):
+                        if k not in shadow and not k.startswith('__') and k in free:
                             cs.env[k] = v          # the defining frame, wherever the function is called from
                 for k, v in s.env.items():
                     cs.env.setdefault(k, v)
@@ -1608,7 +1626,9 @@ class Interp:
         results = []
         for kind in ('fall', 'return') + (('raise',) if self.precise_exc else ()):
             for st, v in outs.get(kind, []):
-                ns = State(dict(st.env.get(ckey, s.env)), st.trace, st.assumed)
+                _caller_env = st.env.get(ckey, s.env)
+                ns = State(dict(_caller_env), st.trace, st.assumed)
+                _rebind_closures(ns.env, _caller_env)
                 st.env.pop(ckey, None)
                 ns.flags = st.flags
                 # write back attribute facts and bookkeeping keys
@@ -1623,9 +1643,15 @@ class Interp:
                     if '.' in k or '[' in k or k.startswith('__'):
                         ns.env[k] = val
                 if info is None:
+                    nl = {nm for x in M.walk_no_nested(node) if isinstance(x, ast.Nonlocal) for nm in x.names} if isinstance(node, ast.FunctionDef) else set()
                     for k, val in st.env.items():
-                        if k in s.env and k not in local and k != 'self':
-                            ns.env[k] = val
+                        if k in s.env and k not in local and k != 'self' and (k in nl or not isinstance(node, ast.FunctionDef)):
+                            ns.env[k] = val           # (only names declared nonlocal are the caller's to change)
+                    cenv_ = ns.env.get('__closure@%s_%d' % (node.name, node.lineno)) if nl else None
+                    if isinstance(cenv_, dict):
+                        for nm in nl:
+                            if nm in st.env:
+                                cenv_[nm] = st.env[nm]          # nonlocal: the assignment is the defining frame's
                 # drop the callee's `return` event of this frame
                 if ns.trace and ns.trace[-1][0] == 'return':
                     ns.trace = ns.trace[:-1]
@@ -2229,14 +2255,38 @@ class Interp:
         self._maythrow += 1
         return TOP
 
+    def _display_items(self, n, s):
+        """The items of a list / tuple / set display; *iterable items are spread.  None when a spread value is not determined."""
+        out = []
+        for e in n.elts:
+            if isinstance(e, ast.Starred):
+                v = self.ev(e.value, s)
+                seq = self._seq_in(v, s)
+                if seq is None:
+                    if self.heap:
+                        self.imprecise.append('the items spread by *%s are not determined (line %s)' % (_text(e.value)[:40], getattr(n, 'lineno', '?')))
+                    return None
+                out.extend(seq)
+            else:
+                out.append(self.ev(e, s))
+        return out
+
     def ev_Tuple(self, n, s):
+        if any(isinstance(e, ast.Starred) for e in n.elts):
+            items = self._display_items(n, s)
+            return TOP if items is None else tuple(items)
         return tuple(self.ev(e, s) for e in n.elts)
 
     def ev_List(self, n, s):
+        if any(isinstance(e, ast.Starred) for e in n.elts):
+            items = self._display_items(n, s)
+            return TOP if items is None else items
         return [self.ev(e, s) for e in n.elts]
 
     def ev_Set(self, n, s):
-        vals = [self.ev(e, s) for e in n.elts]
+        vals = self._display_items(n, s) if any(isinstance(e, ast.Starred) for e in n.elts) else [self.ev(e, s) for e in n.elts]
+        if vals is None:
+            return TOP
         try:
             return set(vals)
         except TypeError:
@@ -2392,6 +2442,21 @@ class Interp:
             return (Iter(list(_it.product(*seqs, repeat=kwargs.get('repeat', 1)))),)
         if ext in ('itertools.islice', 'islice') and len(args) in (2, 3, 4) and not kwargs and all(a is None or isinstance(a, int) for a in args[1:]):
             import itertools as _it
+            if isinstance(args[0], (LazyGen, GenObj)):
+                # a lazy source: exactly the items islice would ask for are taken from it
+                start, stop, step = (0, args[1], 1) if len(args) == 2 else (args[1] or 0, args[2], (args[3] if len(args) == 4 and args[3] else 1))
+                if stop is None or stop > 4096:
+                    return (TOP,)
+                taken = []
+                for i in range(stop):
+                    item = self._take(args[0], s)
+                    if item is STOP:
+                        break
+                    if item is None:
+                        return (TOP,)
+                    if i >= start and (i - start) % step == 0:
+                        taken.append(None if item is _NONE_ITEM else item)
+                return (Iter(taken),)
             if isinstance(args[0], Iter) and not isinstance(args[0], CountIter):
                 it_ = args[0]
                 taken = list(_it.islice(it_.items[it_.pos:], *args[1:]))
@@ -2802,15 +2867,16 @@ class Interp:
         for k, v in kwargs.items():
             vals['__k_' + k] = v
         names = self._with_temps(vals, s)
-        call = ast.Call(func=ast.Name(id='__forced', ctx=ast.Load()), args=[ast.Name(id=names['__x%d' % i], ctx=ast.Load()) for i in range(len(args))],
+        table = self.__dict__.setdefault('_forced_table', {})
+        fid = '__forced_%d' % id(info)
+        table[fid] = info                 # (the name says which function is meant: nested calls of this kind do not disturb each other)
+        call = ast.Call(func=ast.Name(id=fid, ctx=ast.Load()), args=[ast.Name(id=names['__x%d' % i], ctx=ast.Load()) for i in range(len(args))],
                         keywords=[ast.keyword(arg=k, value=ast.Name(id=names['__k_' + k], ctx=ast.Load())) for k in kwargs])
         for x in ast.walk(call):
             x.lineno, x.col_offset, x.end_lineno, x.end_col_offset = lineno, 0, lineno, 0
         try:
-            self._force_unbound = info
             return self._inline_single(call, s)
         finally:
-            self._force_unbound = None
             for nm in names.values():
                 s.env.pop(nm, None)
 
@@ -3198,6 +3264,12 @@ class Interp:
             raise AnalysisError('generators nested too deeply (%s)' % gen.fname)
         same_self = gen.env.get('self') is s.env.get('self')
         self._sync_shared(s.env, gen.env, same_self)
+        nonlocals = self._nonlocals_of(gen.node)
+        cenv_ = gen.env.get('__closure@%s_%d' % (gen.node.name, gen.node.lineno)) if nonlocals else None
+        if isinstance(cenv_, dict):
+            for nm in nonlocals:
+                if nm in cenv_:
+                    gen.env[nm] = cenv_[nm]
         cs = State(gen.env, s.trace, dict(s.assumed))
         cs.flags = s.flags
         saved = (self.scope, getattr(self, '_locals_cache', None))
@@ -3218,6 +3290,7 @@ class Interp:
                     return None
                 kind, final, v = flat[0]
                 gen.pc = 'done'
+                gen.retval = v if kind == 'return' else None
                 item = STOP
                 if kind == 'raise' or '__exc' in final.env:
                     final.env.setdefault('__exc', v if isinstance(v, str) else 'Exception')
@@ -3230,7 +3303,13 @@ class Interp:
             self._inline_stack.pop()
             self.scope, self._locals_cache = saved
         if final.env is not gen.env:
+            _rebind_closures(final.env, gen.env)
             gen.env = final.env            # (the frame's dictionary may have been replaced by an equal one; the objects are the same)
+        cenv_ = gen.env.get('__closure@%s_%d' % (gen.node.name, gen.node.lineno)) if nonlocals else None
+        if isinstance(cenv_, dict):
+            for nm in nonlocals:
+                if nm in gen.env:
+                    cenv_[nm] = gen.env[nm]
         exc = final.env.pop('__exc', None)
         self._sync_shared(gen.env, s.env, same_self)
         s.trace, s.flags = final.trace, final.flags
@@ -3238,6 +3317,12 @@ class Interp:
             s.env['__exc'] = exc
             return STOP
         return item
+
+    def _nonlocals_of(self, fnode):
+        cache = self.__dict__.setdefault('_nonlocal_cache', {})
+        if id(fnode) not in cache:
+            cache[id(fnode)] = (sorted({nm for x in M.walk_no_nested(fnode) if isinstance(x, ast.Nonlocal) for nm in x.names}), fnode)
+        return cache[id(fnode)][0]
 
     def _yield_chain(self, fnode, ynode):
         """Where a yield expression sits: [(statement list, index), ...] from the function body down to its own statement."""
@@ -3310,7 +3395,7 @@ class Interp:
         stmts, idx = chain[depth]
         st = stmts[idx]
         if depth == len(chain) - 1:
-            if isinstance(st, ast.Expr) and isinstance(st.value, ast.YieldFrom):
+            if isinstance(st, (ast.Expr, ast.Assign)) and isinstance(st.value, ast.YieldFrom):
                 outs = self._lazy_yield_from(st, cs)
             elif isinstance(st, ast.Assign):
                 for t in st.targets:
@@ -3366,7 +3451,8 @@ class Interp:
         raise AnalysisError('a generator suspended inside a %s statement cannot be resumed' % type(st).__name__)
 
     def _lazy_yield_from(self, st, cs):
-        """yield from X in a lazily interpreted generator: one item per resumption."""
+        """yield from X (or t = yield from X) in a lazily interpreted generator: one item per resumption; at the end t gets the
+        value returned by the generator X."""
         key = '__yf@%d' % st.lineno
         if key not in cs.env:
             v = self.ev(st.value.value, cs)
@@ -3381,7 +3467,11 @@ class Interp:
         if item is STOP or item is None:
             if item is None:
                 self.imprecise.append('yield from %s: an item is not determined (line %s)' % (_text(st.value.value)[:50], st.lineno))
-            cs.env.pop(key, None)
+            src = cs.env.pop(key, None)
+            if isinstance(st, ast.Assign) and not (self.precise_exc and '__exc' in cs.env):
+                rv = src.retval if isinstance(src, GenObj) and item is STOP else (None if item is STOP else TOP)
+                for t in st.targets:
+                    self.assign(t, rv, cs, st, quiet=True)
             return {'fall': [(cs, None)]}
         raise _YieldSignal(None if item is _NONE_ITEM else item, cs, st.value)
 
@@ -4043,7 +4133,9 @@ class Interp:
                         self._force_callee = init
                         res = self.inline(call, s)
                         st = res[0][0]
+                        _old_env = s.env
                         s.env, s.trace, s.assumed, s.flags = st.env, st.trace, st.assumed, st.flags
+                        _rebind_closures(s.env, _old_env)
                         o = s.env.get(key, o)
                         if isinstance(o, Obj):
                             o.attrs['__closed'] = True
